@@ -554,6 +554,28 @@ def run(ctx):
         ctx.oblige("from_box(periodic=True) (atoms, cell_indices, order) == Coq box model [%d cases]" % len(bexprs), "correspondence", nbad == 0,
                    "%d disagree; first: %s" % (nbad, first))
         ctx.evaluations += len(bexprs)
+    # ---- systems of different composition whose atomic numbers concatenate to the same digits (H,H / Na; H,C / S; H,Mg / Na,He; Li,H / P ...): still different systems
+    from ase import Atoms as _Atoms
+    COLL = [(["H", "H"], ["Na"]), (["H", "C"], ["S"]), (["H", "Mg"], ["Na", "He"]), (["Li", "H"], ["P"]), (["He", "He"], ["Ti"]), (["C", "H"], ["Pm"]), (["H", "H", "H"], ["Na", "H"])]
+    for sa_, sb_ in COLL:
+        A_ = _Atoms(sa_, positions=[[1.1 * i, 0, 0] for i in range(len(sa_))], cell=[9, 9, 9], pbc=True)
+        B_ = _Atoms(sb_, positions=[[1.3 * i, 0.2, 0] for i in range(len(sb_))], cell=[9, 9, 9], pbc=True)
+        for op in "+-*":
+            ctx.evaluations += 1
+            try:
+                x_, y_ = AtomSelection(A_, [0]), AtomSelection(B_, [0])
+                {"+": lambda: x_ + y_, "-": lambda: x_ - y_, "*": lambda: x_ * y_}[op]()
+                ctx.fail_input("setop", dict(syms=sa_, other=sb_, op=op), "a selection on %s %s a selection on %s was not refused" % (sa_, op, sb_), classify)
+            except ValueError:
+                pass
+            except Exception as e:
+                ctx.fail_input("setop", dict(syms=sa_, other=sb_, op=op), "raised %s instead of refusing: %s" % (type(e).__name__, e), classify)
+        ctx.evaluations += 1
+        try:
+            if AtomSelection(A_, [0]).validate(B_):
+                ctx.fail_input("setop", dict(syms=sa_, other=sb_, op="validate"), "validate accepts a system of different composition (%s vs %s)" % (sa_, sb_), classify)
+        except Exception:
+            pass
     if ctx.tier == "thorough":
         ctx.coqchk()
 
